@@ -638,6 +638,7 @@ pub fn run_scenario(
             "same" => {},
             "rand" => cs[cj] = alt_point("commit", sidx ^ mi as u64),
             "swap" => cs.swap(cj, cj + 1),
+            "copy" => cs[cj] = cs[cj - 1].clone(), // commitment cj becomes a copy of its left neighbour
             "cache" => {}, // below: only the cached ENCODING of commitment cj is replaced, the point stays
             x => panic!("unknown commit change {}", x),
         }
